@@ -1,0 +1,51 @@
+//go:build verif
+
+package syntax
+
+// Contracts for the deductive verifier under /verif (comment-only; build tag verif).
+
+// ---- template instantiation (C14): how an argument gets its value ----
+
+//@ func containsArg
+//@   ensures result <==> exists k in 0..len(args) :: args[k].Param == param
+//@   loop 1:
+//@     invariant 0 <= @i && @i <= len(args)
+//@     invariant forall k in 0..@i :: args[k].Param != param
+
+// resolve: an explicit value wins; otherwise the value bound to the parameter named by TakeFrom in
+// the instantiation context (the first such binding). The call must not end in log.Fatal: a context
+// that binds TakeFrom is required when there is no explicit value.
+//@ func instance.resolve
+//@   option nilable-receiver
+//@   requires len(arg.Value) > 0 || (i != nil && exists k in 0..len(i.args) :: i.args[k].param == arg.TakeFrom)
+//@   ensures result.param == arg.Param
+//@   ensures len(arg.Value) > 0 ==> result.value == arg.Value
+//@   ensures len(arg.Value) == 0 ==> exists k in 0..len(i.args) :: i.args[k].param == arg.TakeFrom && result.value == i.args[k].value && forall j in 0..k :: i.args[j].param != arg.TakeFrom
+//@   loop 1:
+//@     invariant i != nil && 0 <= @i && @i <= len(i.args)
+//@     invariant forall j in 0..@i :: i.args[j].param != arg.TakeFrom
+
+// ---- desugaring (C13): alternatives keep at most one empty alternative ----
+
+// collapseEmpty keeps every non-empty alternative and the first empty one, in their order.
+//@ func collapseEmpty
+//@   requires forall k in 0..len(list) :: list[k] != nil
+//@   modifies list[0:len(list)]
+//@   ensures forall k in 0..len(result) :: result[k] != nil
+//@   ensures forall p in 0..len(result) :: forall q in p+1..len(result) :: !(result[p].Kind == Empty && result[q].Kind == Empty)
+//@   ensures forall k in 0..len(list) :: old(list[k]).Kind != Empty ==> exists j in 0..len(result) :: result[j] == old(list[k])
+//@   ensures (exists k in 0..len(list) :: old(list[k]).Kind == Empty) ==> exists j in 0..len(result) :: result[j].Kind == Empty
+//@   ensures forall j in 0..len(result) :: exists k in j..len(list) :: result[j] == old(list[k])
+//@   loop 1:
+//@     invariant 0 <= @i && @i <= len(list) && 0 <= empties && empties <= @i
+//@     invariant empties == 0 ==> forall k in 0..@i :: list[k].Kind != Empty
+//@     invariant empties == 1 ==> exists p in 0..@i :: list[p].Kind == Empty && forall q in 0..@i :: q != p ==> list[q].Kind != Empty
+//@   loop 2:
+//@     invariant 0 <= @i && @i <= len(list) && samearray(out, list) && len(out) <= @i && cap(out) == cap(list)
+//@     invariant forall k in @i..len(list) :: list[k] == old(list[k])
+//@     invariant forall k in 0..len(out) :: out[k] != nil
+//@     invariant seen <==> exists k in 0..len(out) :: out[k].Kind == Empty
+//@     invariant forall p in 0..len(out) :: forall q in p+1..len(out) :: !(out[p].Kind == Empty && out[q].Kind == Empty)
+//@     invariant forall k in 0..@i :: old(list[k]).Kind != Empty ==> exists j in 0..len(out) :: out[j] == old(list[k])
+//@     invariant (exists k in 0..@i :: old(list[k]).Kind == Empty) ==> seen
+//@     invariant forall j in 0..len(out) :: exists k in j..@i :: out[j] == old(list[k])
